@@ -109,3 +109,95 @@ def tls_conn(draw, combos=None, max_records=12, max_len=2000, delivery=None, ep=
 
 def single_tls_scenario(**kw):
     return st.builds(lambda c, ts: {"conns": [c], "tseed": ts}, tls_conn(**kw), st.integers(0, 1000))
+
+
+# ------------------------------------------------------------------ QUIC
+QV = st.one_of(st.integers(0, 63), st.integers(0, 16383), st.integers(0, (1 << 30) - 1), st.integers(0, (1 << 62) - 1))
+QW = st.sampled_from([None, None, None, 1, 2, 4, 8])
+
+
+def quic_frame(max_data=300):
+    ln = st.one_of(st.integers(0, 40), st.integers(0, max_data))
+    stream = st.tuples(st.just("stream"), st.one_of(st.integers(0, 40), QV), ln, st.one_of(st.none(), QV), st.booleans(), st.booleans(), QW)
+    other = st.one_of(
+        st.tuples(st.just("pad"), st.integers(1, 30)),
+        st.tuples(st.just("ping")),
+        st.tuples(st.just("ack"), QV, st.integers(0, 5000), st.integers(0, 50), st.lists(st.tuples(st.integers(0, 50), st.integers(0, 50)).map(list), max_size=3),
+                  st.one_of(st.none(), st.tuples(QV, QV, QV).map(list)), QW),
+        st.tuples(st.just("crypto"), QV, st.integers(0, 80), QW),            # post-handshake CRYPTO (session tickets)
+        st.tuples(st.just("token"), st.integers(1, 40), QW),
+        st.tuples(st.just("maxdata"), QV, QW),
+        st.tuples(st.just("maxsd"), QV, QV, QW),
+        st.tuples(st.just("maxstreams"), st.integers(0, 1 << 60), st.booleans(), QW),
+        st.tuples(st.just("blocked"), QV, QW),
+        st.tuples(st.just("sblocked"), QV, QV, QW),
+        st.tuples(st.just("ssblocked"), st.integers(0, 1 << 60), st.booleans(), QW),
+        st.tuples(st.just("reset"), QV, QV, QV, QW),
+        st.tuples(st.just("stop"), QV, QV, QW),
+        st.tuples(st.just("rcid"), st.integers(0, 20), QW),
+        st.tuples(st.just("pc")), st.tuples(st.just("pr")),
+        st.tuples(st.just("hsdone")),
+        st.tuples(st.just("dgram"), st.integers(0, 60), st.booleans(), QW),
+    )
+    return st.one_of(stream, stream, other).map(list)
+
+
+@st.composite
+def quic_steps(draw, max_steps=12, key_updates=True, cids=True, zero_cid=False):
+    """application-phase history: mostly datagrams that carry STREAM data (so that the export has something to get wrong)"""
+    steps = []
+    n = draw(st.integers(2, max_steps))
+    kinds = draw(st.lists(st.integers(0, 19), min_size=n, max_size=n))
+    for k in kinds:
+        d = draw(st.integers(0, 1))
+        if k <= 1 and key_updates:
+            steps.append({"op": "ku", "d": d})
+        elif k == 2 and cids:
+            steps.append({"op": "ncid", "d": d, "len": draw(st.integers(1, 20))})
+        elif k in (3, 4) and cids:
+            steps.append({"op": "usecid", "d": d, "i": draw(st.integers(0, 5))})
+        else:
+            main = ["stream", draw(st.integers(0, 12)), draw(st.one_of(st.integers(1, 30), st.integers(1, 300))),
+                    draw(st.one_of(st.none(), st.integers(0, 1 << 20))), draw(st.booleans()), draw(st.booleans()), draw(QW)]
+            extra = draw(st.lists(quic_frame(), max_size=3)) if k >= 9 else []
+            cut = draw(st.integers(0, len(extra)))
+            frs = extra[:cut] + [main] + extra[cut:]
+            tot, kept = 0, []
+            for f in frs:            # keep the datagram below a typical MTU
+                sz = f[2] + 20 if f[0] == "stream" else {"crypto": 90, "dgram": 70, "token": 50, "pad": 30}.get(f[0], 30)
+                if tot + sz <= 1150:
+                    tot += sz
+                    kept.append(f)
+            pk = [{"fr": kept or [["ping"]], "gap": draw(st.sampled_from([0, 0, 1, 2, 200, 70000, 1 << 22])) if k % 2 else 0,
+                   "pnl": draw(st.sampled_from([0, 0, 1, 2, 3, 4]))}]
+            if k == 19:
+                pk.insert(0, {"fr": [["ack", 0, 0, 0, [], None, None]]})
+            steps.append({"op": "data", "d": d, "pk": pk})
+    return steps
+
+
+@st.composite
+def quic_conn(draw, max_steps=12, zero_cid=True, early=True, retry=True, offered_any=True, ep=None, cids=True, key_updates=True):
+    suite = draw(st.sampled_from([0x1301, 0x1302, 0x1303, 0x1304]))
+    others = draw(st.lists(st.sampled_from([0x1301, 0x1302, 0x1303, 0x1304, 0x0A0A, 0x1305, 0xC02F, 0xFAFA]), max_size=4))
+    others = [o for o in others if o != suite]
+    if offered_any:
+        pos = draw(st.integers(0, len(others)))
+    else:
+        pos = 0
+    offered = others[:pos] + [suite] + others[pos:]
+    cl = st.sampled_from([0, 0, 1, 4, 8, 8, 16, 20]) if zero_cid else st.sampled_from([1, 4, 8, 8, 16, 20])
+    spec = {"kind": "quic", "seed": draw(SEED), "suite": suite, "offered": offered,
+            "dcid_len": draw(st.sampled_from([8, 8, 12, 18, 20])), "c_scid_len": draw(cl), "s_scid_len": draw(cl),
+            "retry": draw(st.booleans()) if retry else False,
+            "early": draw(st.sampled_from([0, 0, 0, 1, 2])) if early else 0,
+            "split_ch": draw(st.sampled_from([0, 0, 1, 2, 3, 5])), "ch_shuffle": draw(st.booleans()),
+            "split_shs": draw(st.sampled_from([0, 0, 2, 3])), "hs_coalesce": draw(st.booleans()),
+            "cert_len": draw(st.sampled_from([100, 600, 900]))}
+    spec["steps"] = draw(quic_steps(max_steps, key_updates=key_updates, cids=cids))
+    spec["ep"] = draw(ep if ep is not None else endpoints())
+    return spec
+
+
+def single_quic_scenario(**kw):
+    return st.builds(lambda c, ts: {"conns": [c], "tseed": 1 + ts}, quic_conn(**kw), st.integers(0, 1000))
